@@ -6,6 +6,7 @@ require (
 	git.apache.org/thrift.git v0.13.0
 	github.com/anishathalye/porcupine v1.3.0
 	github.com/henrylee2cn/erpc/v6 v6.0.0
+	github.com/henrylee2cn/goutil v0.0.0-20200416032639-974f5b4094a2
 )
 
 replace github.com/henrylee2cn/erpc/v6 => /repo
